@@ -83,7 +83,7 @@ class Acc:
         v["count"] += 1
         if len(v["first"]) < self.MAX_VIOL_PER_KEY:
             v["first"].append({"kind": kind, "case": case, "desc": desc,
-                               "curve": self.job.get("curve")})
+                               "curve": self.job.get("curve"), "job": self.job})
 
     def check(self, kind, case, fn):
         """Run fn(case) -> iterable of (key, desc); record violations. Library exceptions must be
@@ -288,10 +288,22 @@ def run_property(prop, tier, seed, strict=False, nproc=None):
         if "harness_error" in conf:
             print(f"HARNESS-ERROR property={prop} confirm key={key}\n{conf['harness_error']}", flush=True)
             return 2
+        history_dependent = False
         if key not in [k for k, _ in conf["viol"]]:
-            print(f"HARNESS-ERROR property={prop} nondeterministic: key={key} not reproduced on "
-                  f"re-execution of {json.dumps(first['case'])[:400]} (got {conf['viol']})", flush=True)
-            return 2
+            # not reproduced from a fresh process image by the single case: the violation may depend on the history of
+            # the job that found it (state leaking between calls). Re-run that whole job in a fresh process.
+            pool = _pool(first.get("curve"), modname, 1)
+            try:
+                rj = pool.apply(_worker_run, ((modname, first["job"]),))
+            finally:
+                pool.terminate()
+                pool.join()
+            if "harness_error" in rj or key not in rj.get("violations", {}):
+                print(f"HARNESS-ERROR property={prop} nondeterministic: key={key} not reproduced on "
+                      f"re-execution of {json.dumps(first['case'], default=str)[:400]} (got {conf['viol']}) nor by re-running job "
+                      f"{first['job']['name']}", flush=True)
+                return 2
+            history_dependent = True
         if key in known:
             known_hit.add(key)
             print(f"KNOWN-FINDING: property={prop} key={key} {known[key]} [{v['count']} case(s) this run]",
@@ -303,9 +315,11 @@ def run_property(prop, tier, seed, strict=False, nproc=None):
         with open(path, "w") as f:
             json.dump({"property": prop, "key": key, "count": v["count"], "kind": first["kind"],
                        "case": first["case"], "curve": first.get("curve"), "desc": first["desc"],
-                       "more": v["first"][1:]}, f, indent=1)
+                       "history_dependent": history_dependent, "job": first["job"],
+                       "more": [{k: m[k] for k in ("kind", "case", "desc")} for m in v["first"][1:]]}, f, indent=1, default=str)
         print(f"VIOLATION property={prop} replay={path}", flush=True)
-        print(f"  key={key} cases={v['count']}: {first['desc'][:600]}", flush=True)
+        print(f"  key={key} cases={v['count']}{' [history-dependent: reproduced by re-running job ' + first['job']['name'] + ' from a fresh process, not by the single case]' if history_dependent else ''}: "
+              f"{first['desc'][:600]}", flush=True)
         exit_code = 1
 
     # obligations
@@ -376,7 +390,11 @@ def replay(prop, path):
     rec = json.load(open(path))
     pool = _pool(rec.get("curve"), modname, 1)
     try:
-        conf = pool.apply(_worker_case, ((modname, rec["kind"], rec["case"]),))
+        if rec.get("history_dependent"):
+            rj = pool.apply(_worker_run, ((modname, rec["job"]),))
+            conf = rj if "harness_error" in rj else {"viol": [[k, v["first"][0]["desc"]] for k, v in rj["violations"].items() if k == rec["key"]]}
+        else:
+            conf = pool.apply(_worker_case, ((modname, rec["kind"], rec["case"]),))
     finally:
         pool.terminate()
         pool.join()
@@ -397,3 +415,23 @@ def replay(prop, path):
             print(f"  key={key}: {desc[:1000]}")
             rc = 1
     return rc
+
+
+# ----------------------------------------------------------------------------- sequence-exploration jobs (E5)
+def seq_jobs(nshards, curve=None, weight=5, name="seq"):
+    return [{"name": f"{name}/{sh}", "part": "seq", "shard": [sh, nshards], "curve": curve, "weight": weight} for sh in range(nshards)]
+
+
+def run_seq_job(job, ops, run_case, depth=None):
+    """explore every operation sequence of length <= depth over `ops` (list of (kind, case)) - see vf/seqexplore.py"""
+    from vf import seqexplore
+    acc = Acc(job)
+    depth = depth or (2 if job["tier"] == "quick" else 3)
+    sh, nsh = job["shard"]
+    n = seqexplore.explore(acc, ops, run_case, depth, scratch_dir(), first_filter=lambda i: i % nsh == sh)
+    acc.ob("history_sequences", n)
+    acc.sample({"sequence_alphabet": len(ops), "depth": depth, "sequences_this_shard": n,
+                "example": [ops[0][0], ops[min(1, len(ops) - 1)][0]]})
+    acc.extra["sequence_alphabet"] = len(ops)
+    acc.extra["depth"] = depth
+    return acc.result()
